@@ -28,6 +28,91 @@ impl Site {
     }
 }
 
+/// Logic-error keys. Safe code may implement `Hash`/`Eq` inconsistently (or mutate a key
+/// through interior mutability while it is stored); the result is unspecified but must stay
+/// memory-safe. Three independent ingredients, chosen by `kind` bits:
+/// 1 = the hash of a residue class of keys changes at operation boundaries ("mutated keys"),
+/// 2 = individual hash computations return a perturbed value (`pct` percent of the calls),
+/// 4 = individual `Eq` calls of tracked keys return the opposite answer (`pct` percent).
+#[derive(Clone, Copy, Debug, Default)]
+pub struct Chaos {
+    pub seed: u64,
+    pub kind: u8,
+    pub pct: u8,
+    pub ctr: u64,
+    pub epochs: [u32; 4],
+    pub perturbed_hashes: u64,
+    pub perturbed_eqs: u64,
+}
+
+impl Chaos {
+    pub fn from_seed(seed: u64) -> Chaos {
+        let r = crate::rng::splitmix64(seed ^ 0xC4A0_5EED);
+        Chaos { seed, kind: 1 + (r % 7) as u8, pct: [2u8, 5, 10, 25, 50][((r >> 8) % 5) as usize], ..Chaos::default() }
+    }
+}
+
+/// Operation boundary: maybe "mutate" the keys of one residue class.
+pub fn chaos_tick(op_index: usize) {
+    CTX.with(|c| {
+        if let Some(ch) = c.borrow_mut().chaos.as_mut() {
+            if ch.kind & 1 != 0 {
+                let r = crate::rng::splitmix64(ch.seed ^ (op_index as u64).wrapping_mul(0x9E37_79B9_7F4A_7C15));
+                if r % 5 == 0 {
+                    ch.epochs[((r >> 8) & 3) as usize] += 1;
+                }
+            }
+        }
+    });
+}
+
+#[inline]
+pub fn chaos_hash(acc: u64, h: u64) -> u64 {
+    CTX.with(|c| {
+        let mut c = c.borrow_mut();
+        match c.chaos.as_mut() {
+            None => h,
+            Some(ch) => {
+                let mut h = h;
+                let e = ch.epochs[(acc & 3) as usize];
+                if e != 0 {
+                    h = crate::rng::splitmix64(h ^ e as u64);
+                    ch.perturbed_hashes += 1;
+                }
+                if ch.kind & 2 != 0 {
+                    ch.ctr += 1;
+                    let r = crate::rng::splitmix64(ch.seed ^ ch.ctr);
+                    if r % 100 < ch.pct as u64 {
+                        h = crate::rng::splitmix64(h ^ r);
+                        ch.perturbed_hashes += 1;
+                    }
+                }
+                h
+            }
+        }
+    })
+}
+
+#[inline]
+pub fn chaos_eq(b: bool) -> bool {
+    CTX.with(|c| {
+        let mut c = c.borrow_mut();
+        match c.chaos.as_mut() {
+            Some(ch) if ch.kind & 4 != 0 => {
+                ch.ctr += 1;
+                let r = crate::rng::splitmix64(ch.seed ^ ch.ctr);
+                if r % 100 < ch.pct as u64 {
+                    ch.perturbed_eqs += 1;
+                    !b
+                } else {
+                    b
+                }
+            }
+            _ => b,
+        }
+    })
+}
+
 /// The payload of an injected panic.
 pub struct FuseBlown;
 
@@ -72,6 +157,8 @@ pub struct Ctx {
     pub zst_overdrop: bool,
     /// objects were leaked on purpose (mem::forget of an owning iterator)
     pub zst_slack: bool,
+    /// logic-error keys (inconsistent Hash / Eq), see `Chaos`
+    pub chaos: Option<Chaos>,
     // ids
     pub step: u64,
     pub next_in_step: u64,
@@ -267,6 +354,15 @@ pub fn check_live(id: u64, what: &str) {
             c.ledger_errors.push(format!("{} on dead or unknown object {}", what, id));
         }
     });
+}
+
+/// A closure was handed something the model does not expect. Under logic-error keys the
+/// model means nothing, so this is not evidence there.
+pub fn note_expectation(msg: String) {
+    if CTX.with(|c| c.borrow().chaos.is_some()) {
+        return;
+    }
+    note_error(msg)
 }
 
 pub fn note_error(msg: String) {
